@@ -75,8 +75,34 @@ class IsoDepInitiator(object):
         self.n_retry_ack = min(int(1/self.fwt), 5)
         self.n_retry_nak = self.n_retry_ack
         self.max_wtx_requests = 64  # for a single block
+        self.in_sync = True
 
     def exchange(self, command, timeout=None):
+        if command is None:
+            return self._exchange(command, timeout)
+        if not self.in_sync:
+            # After a failed exchange it is unknown if the card has
+            # received the last I-block. The answer to an R(NAK) has
+            # the card's current block number, it uses the other one
+            # for the response to the next I-block.
+            try:
+                wait = timeout or (self.fwt + self.delta_fwt)
+                data = self.clf.exchange(bytearray([0xB2 | self.pni]), wait)
+            except nfc.clf.TimeoutError:
+                raise Type4TagCommandError(nfc.tag.TIMEOUT_ERROR)
+            except nfc.clf.TransmissionError:
+                raise Type4TagCommandError(nfc.tag.RECEIVE_ERROR)
+            except nfc.clf.ProtocolError:
+                raise Type4TagCommandError(nfc.tag.PROTOCOL_ERROR)
+            if len(data) == 0 or data[0] & 0xC0 == 0xC0:
+                raise Type4TagCommandError(nfc.tag.PROTOCOL_ERROR)
+            self.pni = ~data[0] & 1
+        self.in_sync = False
+        response = self._exchange(command, timeout)
+        self.in_sync = True
+        return response
+
+    def _exchange(self, command, timeout=None):
         if timeout is None:
             timeout = self.fwt + self.delta_fwt
 
